@@ -5,6 +5,19 @@
 //                   x named subset on one fixed quadratic
 //   L3_halving      halving the step divides the truncation error by 2^order (central stencils)
 //   L4_narrow_box   a selected variable that cannot be probed at all (box narrower than every attempted step)
+//   L5_narrow_geometry  boxes narrower than the probe reach on BOTH sides of the point (lower bound, middle, upper bound,
+//                   next to either bound), every scheme, short histories through every entry point
+// L1 histories also re-select the variables to differentiate on the SAME wrapper (setParametersToDerivate again): the
+// delegation clause (N) must hold for a variable dropped from the selection, at once and after every later update.
+//
+// Narrow boxes (both x-reach and x+reach infeasible; reach = H, 2H for the five-point scheme).  The statement promises
+// "next to a constraint the first and second derivatives fall back to one-sided probes instead of raising", the code
+// retries with halved steps on alternating sides (two/three-point, down to H/16; the depth is not documented).  Asserted:
+// no exception, transparency, and
+//   * two/three-point, a probe at H/8 fits on one side: d1 (and d2) finite and within the mean-value truncation bounds
+//     below (probes within H of x; exact for degree <= 1 resp. <= 2) plus rounding on the OBSERVED stencil spacing s
+//     (smallest distance between two points of {x} + logged probes of that variable): 24*eps*F/s, 32*eps*F/s^2;
+//   * otherwise (narrower, or five-point, which has no halving): NaN, or a finite value within the same bounds.
 //
 // The wrapped function is the harness polynomial PolyFn: value and analytic derivatives are evaluated in long double
 // and rounded once, so one evaluation carries an error of <= 0.5 ulp of F = sum |coefficient * monomial|.
@@ -175,6 +188,8 @@ struct Sys {
   shared_ptr<PolyFn> fn;
   unique_ptr<AbstractNumericalDerivative> w;
   vector<double> cur;   // model: the requested point
+  bool updated = false;         // some update went through the wrapper (its getValue() is a cache of the last update)
+  bool analyticStale = false;   // known finding C12-noprobe-stale-analytic applies to the state the last update left
   bool selected(int j) const { return find(cfg.sel.begin(), cfg.sel.end(), j) != cfg.sel.end(); }
 
   Sys(const Cfg& c, const vector<double>& x0) : cfg(c), cur(x0) {
@@ -202,7 +217,7 @@ template <class F> Got got(F f) {
   return g;
 }
 
-struct Tol { LD trunc1, trunc2, r1, r2; int mode; };   // mode 0 central, 1 one-sided, 2 borderline
+struct Tol { LD trunc1, trunc2, r1, r2; int mode; };   // mode 0 central, 1 one-sided, 2 borderline, 3 narrow (no full-step probe on either side)
 
 // distance of x to the finite bounds of its box
 void dist(const Box& b, double x, LD& dl, LD& du) {
@@ -241,9 +256,33 @@ struct Oracle {
         o.trunc1 = h / 2 * M2; o.trunc2 = 2 * h * M3; o.r1 = c.r1; o.r2 = c.r2; break;
     }
     if (centralSure) { c.mode = 0; return c; }
+    if (dl < reach * (1 + dlt) && du < reach * (1 + dlt)) {   // narrow: any stencil within reach of x, mean-value bounds
+      o.mode = 3;
+      if (s.cfg.scheme == 2) { o.trunc1 = 2 * h * M2; o.trunc2 = 2 * h * M3; }
+      return o;
+    }
     if (oneSure) { o.mode = 1; return o; }
     Tol b; b.mode = 2; b.trunc1 = max(c.trunc1, o.trunc1); b.trunc2 = max(c.trunc2, o.trunc2); b.r1 = max(c.r1, o.r1); b.r2 = max(c.r2, o.r2);
     return b;
+  }
+  // narrow box: smallest distance between two points of the stencil {x_i} + {probes of x_i alone logged in this update}
+  // (0 when no probe of x_i was evaluated)
+  LD observedSpacing(int i) const {
+    vector<LD> pts{0};
+    for (auto& pt : s.fn->log) {
+      bool alone = pt[static_cast<size_t>(i)] != s.cur[static_cast<size_t>(i)];
+      for (int j = 0; j < s.cfg.P.n && alone; ++j) if (j != i && !vf::sameBits(pt[static_cast<size_t>(j)], s.cur[static_cast<size_t>(j)])) alone = false;
+      if (alone) pts.push_back(static_cast<LD>(pt[static_cast<size_t>(i)]) - xl[i]);
+    }
+    if (pts.size() == 1) return 0;
+    LD sp = INFINITY;
+    for (size_t a = 0; a < pts.size(); ++a) for (size_t b = a + 1; b < pts.size(); ++b) if (pts[a] != pts[b]) sp = min(sp, fabsl(pts[a] - pts[b]));
+    return sp;
+  }
+  // narrow box: the two- and three-point schemes must find a probe (one at an eighth of the documented step fits)
+  bool mustProbe(int i) const {
+    LD dl, du; dist(s.cfg.box[i], s.cur[i], dl, du);
+    return s.cfg.scheme != 2 && max(dl, du) >= H[i] / 8 * (1 + 1e-9L);
   }
   // some corner of the central cross stencil of (a,b) may leave the box (within `factor` steps of a bound)
   bool nearBound(int a, LD factor) const {
@@ -254,7 +293,7 @@ struct Oracle {
 
 // ------------------------------------------------------------------ the oracle applied after an update
 // named[j]: variable j was in the list of the latest update.
-void checkAfter(vf::Ctx& c, Sys& s, const vector<bool>& named, const string& where) {
+void checkAfter(vf::Ctx& c, Sys& s, const vector<bool>& named, const string& where) {   // s: only analyticStale is written
   const Cfg& g = s.cfg; const Poly& P = g.P; const int n = P.n;
   Oracle o(s);
   vector<int> ns;   // named and selected, in selection order
@@ -291,7 +330,7 @@ void checkAfter(vf::Ctx& c, Sys& s, const vector<bool>& named, const string& whe
     CHECK(vf::sameBits(s.w->getParameterValue(nm(j)), s.cur[j]), where << ": wrapper reports x" << j << "=" << vf::dec(s.w->getParameterValue(nm(j))));
   }
   CHECK(vf::sameBits(s.fn->getValue(), expect), where << ": wrapped function value " << vf::dec(s.fn->getValue()) << " is not the polynomial at the requested point, " << vf::dec(expect));
-  CHECK(vf::sameBits(s.w->getValue(), expect), where << ": wrapper getValue()=" << vf::dec(s.w->getValue()) << " but the polynomial at the requested point is " << vf::dec(expect));
+  CHECK(!s.updated || vf::sameBits(s.w->getValue(), expect), where << ": wrapper getValue()=" << vf::dec(s.w->getValue()) << " but the polynomial at the requested point is " << vf::dec(expect));
   for (auto& pt : s.fn->log) for (int j = 0; j < n; ++j) CHECK(acc(g.box[j], pt[j]), where << ": the function was evaluated outside its box at x" << j << "=" << vf::dec(pt[j]));
 
   // ---- (D)+(B) first and second derivatives of the selected variables named in this update
@@ -301,7 +340,36 @@ void checkAfter(vf::Ctx& c, Sys& s, const vector<bool>& named, const string& whe
     Got d1 = got([&] { return s.w->getFirstOrderDerivative(nm(i)); });
     CHECK(!d1.raised, where << ": first derivative of selected x" << i << " raised: " << d1.what);
     LD e1 = fabsl(static_cast<LD>(d1.v) - ref1);
-    static const char* M[] = {"central", "onesided", "borderline"};
+    static const char* M[] = {"central", "onesided", "borderline", "narrow"};
+    if (t.mode == 3) {   // no full-step probe on either side of x_i
+      c.label("narrow_box");
+      LD sp = o.observedSpacing(i); bool probed = sp > 0, must = o.mustProbe(i);
+      if (!probed) sp = o.H[i] / 512;
+      LD r1 = 24 * EPSL * o.F / sp, r2 = (g.scheme == 2 ? 48 : 32) * EPSL * o.F / (sp * sp);
+      Got d2 = got([&] { return s.w->getSecondOrderDerivative(nm(i)); });
+      ostringstream geo; LD dl, du; dist(g.box[i], s.cur[i], dl, du);
+      geo << "x" << i << "=" << vf::dec(s.cur[i]) << " in " << show(g.box[i]) << ", H=" << vf::dec(static_cast<double>(o.H[i])) << ", room " << vf::dec(static_cast<double>(dl)) << " below and " << vf::dec(static_cast<double>(du))
+          << " above, " << (probed ? "probes " + vf::dec(static_cast<double>(sp)) + " apart" : string("no probe evaluated"));
+      if (std::isnan(d1.v)) {
+        CHECK(!must, where << ": df/dx" << i << " is NaN although a one-sided probe at an eighth of the step fits (" << geo.str() << ")");
+        c.label("narrow_box_nan");
+      } else {
+        if (t.trunc1 == 0 && probed) c.observe(string("d1_rounding_units(eps*F/spacing)_") + SCHEME[g.scheme] + "_narrow", static_cast<double>(e1 / (EPSL * o.F / sp)));
+        CHECK(std::isfinite(d1.v) && e1 <= t.trunc1 + r1, where << ": df/dx" << i << " = " << vf::dec(d1.v) << " but analytic " << vf::dec(static_cast<double>(ref1)) << " (narrow box: " << geo.str() << "); error "
+                                                            << vf::dec(static_cast<double>(e1)) << " > truncation " << vf::dec(static_cast<double>(t.trunc1)) << " + rounding " << vf::dec(static_cast<double>(r1)));
+      }
+      if (g.scheme == 0) { CHECK(d2.raised, where << ": the two-point scheme returned a second derivative " << vf::dec(d2.v) << " (documented: not available)"); continue; }
+      CHECK(!d2.raised, where << ": second derivative of selected x" << i << " raised: " << d2.what);
+      if (std::isnan(d2.v)) {
+        CHECK(!must, where << ": d2f/dx" << i << "^2 is NaN although a one-sided probe at an eighth of the step fits (" << geo.str() << ")");
+      } else {
+        LD e2 = fabsl(static_cast<LD>(d2.v) - ref2);
+        if (t.trunc2 == 0 && probed) c.observe(string("d2_rounding_units(eps*F/spacing^2)_") + SCHEME[g.scheme] + "_narrow", static_cast<double>(e2 / (EPSL * o.F / (sp * sp))));
+        CHECK(std::isfinite(d2.v) && e2 <= t.trunc2 + r2, where << ": d2f/dx" << i << "^2 = " << vf::dec(d2.v) << " but analytic " << vf::dec(static_cast<double>(ref2)) << " (narrow box: " << geo.str() << "); error "
+                                                            << vf::dec(static_cast<double>(e2)) << " > truncation " << vf::dec(static_cast<double>(t.trunc2)) << " + rounding " << vf::dec(static_cast<double>(r2)));
+      }
+      continue;
+    }
     if (t.trunc1 == 0) c.observe(string("d1_rounding_units(eps*F/H)_") + SCHEME[g.scheme] + "_" + M[t.mode], static_cast<double>(e1 / (EPSL * o.F / o.H[i])));
     CHECK(std::isfinite(d1.v) && e1 <= t.trunc1 + t.r1, where << ": df/dx" << i << " = " << vf::dec(d1.v) << " but analytic " << vf::dec(static_cast<double>(ref1)) << " (" << M[t.mode] << " stencil, H=" << vf::dec(static_cast<double>(o.H[i]))
                                                                  << "); error " << vf::dec(static_cast<double>(e1)) << " > truncation " << vf::dec(static_cast<double>(t.trunc1)) << " + rounding " << vf::dec(static_cast<double>(t.r1)));
@@ -321,6 +389,12 @@ void checkAfter(vf::Ctx& c, Sys& s, const vector<bool>& named, const string& whe
   }
 
   // ---- (N) delegation for variables that are not selected
+  // known finding: two/three-point scheme, the last selected variable named in the update could not be probed and an
+  // earlier one was: the perturbation is undone while the function's analytic derivatives are switched off and nothing
+  // evaluates the function again once they are switched on -> the function's derivatives are stale (NaN for PolyFn).
+  // (an update that evaluates nothing - same values, nothing probed - leaves the state of the previous one)
+  if (!s.fn->log.empty()) s.analyticStale = g.scheme != 2 && ns.size() >= 2 && o.tol(ns.back()).mode == 3 && o.observedSpacing(ns.back()) == 0;
+  if (s.analyticStale && g.kind >= 1 && c.isKnown("C12-noprobe-stale-analytic")) { c.label("delegation_not_checked_known_stale_analytic"); return; }
   LD xl[MAXV] = {0, 0, 0, 0}; for (int j = 0; j < n; ++j) xl[j] = s.cur[j];
   for (int j = 0; j < n; ++j) {
     if (s.selected(j)) continue;
@@ -370,6 +444,10 @@ bool applyUpdate(vf::Ctx& c, Sys& s, const Upd& u, const string& where) {
     int cnt = 0; for (int j : s.cfg.sel) if (named[j]) ++cnt;
     if (s.cfg.scheme == 1 && s.cfg.cross && cnt >= 2) c.excludeIfKnown("C12-cross-bookkeeping");
   }
+  if (s.cfg.scheme == 2) {   // known finding: the five-point scheme lets the ConstraintException of its one-sided fallback escape
+    Oracle o(s);             // when neither x-2H nor x+2H is feasible (function left perturbed, analytic derivatives left disabled)
+    for (int j : s.cfg.sel) if (named[j] && o.tol(j).mode == 3) c.excludeIfKnown("C12-5pt-narrow-box");
+  }
   try {
     switch (u.entry) {
       case 0: s.w->setParameters(pl); break;
@@ -390,8 +468,27 @@ bool applyUpdate(vf::Ctx& c, Sys& s, const Upd& u, const string& where) {
   }
   if (s.fn->nRaise > raises0) c.label("probe_raised_in_function");
   c.observe("evaluations_per_update", static_cast<double>(s.fn->log.size()));
+  s.updated = true;
   checkAfter(c, s, named, where);
   return true;
+}
+
+// a new selection on the same wrapper.  Nothing is recomputed by it (derivatives of the selected variables are those of
+// the next update that names them); what must hold at once is (T) and (N): a variable that is not selected any more is
+// delegated to the wrapped function, which still sits at the requested point with its analytic derivatives.
+void reselect(vf::Ctx& c, Sys& s, const vector<int>& sel, int op) {
+  bool dropped = false;
+  for (int j : s.cfg.sel) if (find(sel.begin(), sel.end(), j) == sel.end()) dropped = true;
+  vector<string> names; for (int j : sel) names.push_back(nm(j));
+  c.desc << "; derivate(";
+  for (size_t q = 0; q < sel.size(); ++q) c.desc << (q ? "," : "") << "x" << sel[q];
+  c.desc << ")";
+  s.w->setParametersToDerivate(names);
+  s.cfg.sel = sel;
+  c.label(dropped ? "reselect_dropping_a_variable" : "reselect");
+  s.fn->log.clear();   // nothing is evaluated by a selection
+  ostringstream wh; wh << "after selecting again before op " << op + 1;
+  checkAfter(c, s, vector<bool>(static_cast<size_t>(s.cfg.P.n), false), wh.str());
 }
 
 // ------------------------------------------------------------------ generators
@@ -407,18 +504,48 @@ Poly genPoly(vf::Ctx& c, int n, int deg, int maxTerms) {
   }
   return P;
 }
-Box genBox(vf::Ctx& c) {
+// width of a narrow box in units of the documented step H = (1+|lo|)*h: below 2 no central three-point stencil fits
+// anywhere, below 1 no full-step probe fits on either side, below 4 the same for the five-point scheme at some points;
+// 0.126 is just above the asserted retry depth (H/8), 0.1 between it and the depth the code reaches (H/16), 0.03 below.
+const double NARROW[] = {1.0, 0.5, 1.5, 0.25, 1.9, 0.75, 3.0, 0.126, 3.9, 0.1, 0.03, 2.5};
+Box genNarrowBox(vf::Ctx& c, double h) {
+  Box b; b.has = true;
+  b.lo = static_cast<double>(c.zig(12)) / 2;
+  b.hi = b.lo + c.pick(NARROW) * (1 + std::abs(b.lo)) * h;
+  b.il = !c.oneIn(4); b.iu = !c.oneIn(4);
+  return b;
+}
+bool isNarrow(const Box& b) { return b.has && std::isfinite(b.lo) && std::isfinite(b.hi) && b.hi - b.lo < 0.45; }
+Box genBox(vf::Ctx& c, double h) {
   Box b;
-  switch (c.weighted({3, 4, 1, 1})) {
+  switch (c.weighted({3, 4, 1, 1, 2})) {
     case 0: return b;
     case 1: b.has = true; b.lo = static_cast<double>(c.zig(12)) / 2; b.hi = b.lo + c.pick({1.0, 0.5, 2.0, 4.0, 0.75}); break;
     case 2: b.has = true; b.lo = static_cast<double>(c.zig(12)) / 2; b.hi = INF; break;
-    default: b.has = true; b.hi = static_cast<double>(c.zig(12)) / 2; b.lo = -INF; break;
+    case 3: b.has = true; b.hi = static_cast<double>(c.zig(12)) / 2; b.lo = -INF; break;
+    default: return genNarrowBox(c, h);
   }
   b.il = !c.oneIn(4); b.iu = !c.oneIn(4);
   return b;
 }
+// a point of a narrow box: middle, on / an ulp or a tiny fraction of the step away from either bound, anywhere
+double genNarrowVal(vf::Ctx& c, const Box& b, double h) {
+  double w = b.hi - b.lo, v, Hn = (1 + std::abs(b.hi)) * h;
+  switch (c.weighted({2, 3, 3, 2, 2, 2})) {
+    case 0: v = midOf(b); break;
+    case 1: v = b.hi; if (c.oneIn(3)) v = vf::ulpStep(v, -static_cast<int>(c.irange(1, 3))); break;
+    case 2: v = b.lo; if (c.oneIn(3)) v = vf::ulpStep(v, static_cast<int>(c.irange(1, 3))); break;
+    case 3: { double t = c.pick({1.0 / 1024, 1.0 / 300, 1.0 / 64, 1.0 / 20, 1.0 / 8, 0.3}); v = c.flag() ? b.hi - t * Hn : b.lo + t * Hn; break; }
+    case 4: v = b.lo + w * c.pick({0.25, 0.75, 0.1, 0.9, 0.4, 0.6}); break;
+    default: v = c.real(b.lo, b.hi);
+  }
+  if (!acc(b, v) && v == b.hi) v = vf::ulpStep(v, -1);
+  if (!acc(b, v) && v == b.lo) v = vf::ulpStep(v, 1);
+  if (!acc(b, v) || !std::isfinite(v)) v = midOf(b);
+  return v;
+}
 double genVal(vf::Ctx& c, const Box& b, double h) {
+  if (isNarrow(b)) return genNarrowVal(c, b, h);
   double L = b.has && std::isfinite(b.lo) ? b.lo : -8, U = b.has && std::isfinite(b.hi) ? b.hi : 8;
   if (L > U - 0.5) { if (std::isfinite(b.lo) && b.has) U = L + 8; else L = U - 8; }
   double v;
@@ -457,14 +584,14 @@ double genH(vf::Ctx& c, bool& setH) {
 }  // namespace
 
 // ------------------------------------------------------------------ L1 histories
-LAW(L1_history, RC, 30000, 1500000, 420, "a requested value within 2 steps of a bound, or a partial update list, or >=2 selected variables with cross derivatives") {
+LAW(L1_history, RC, 30000, 1500000, 560, "a requested value within 2 steps of a bound, or a partial update list, or >=2 selected variables with cross derivatives") {
   Cfg g;
   g.scheme = static_cast<int>(c.weighted({2, 3, 2}));
   g.kind = static_cast<int>(c.below(g.scheme == 0 ? 2 : 3));
   g.h = genH(c, g.setH);
   int n = c.irange(1, MAXV), deg = c.irange(0, 5);
   g.P = genPoly(c, n, deg, 6);
-  for (int j = 0; j < n; ++j) g.box.push_back(genBox(c));
+  for (int j = 0; j < n; ++j) g.box.push_back(genBox(c, g.h));
   { vector<int> sub; for (int j = 0; j < n; ++j) if (!c.oneIn(4)) sub.push_back(j); g.sel = genOrder(c, sub); }
   g.cross = g.scheme == 1 && c.oneIn(4);
   vector<double> x0; for (int j = 0; j < n; ++j) x0.push_back(c.oneIn(3) ? genVal(c, g.box[j], g.h) : midOf(g.box[j]));
@@ -475,6 +602,10 @@ LAW(L1_history, RC, 30000, 1500000, 420, "a requested value within 2 steps of a 
   bool nt = false;
   int nops = c.irange(1, 10);
   for (int op = 0; op < nops; ++op) {
+    if (c.oneIn(5)) {   // select again on the same wrapper: any subset in any order (dropping, adding, permuting, same)
+      vector<int> keep; for (int j = 0; j < n; ++j) if (c.flag()) keep.push_back(j);
+      reselect(c, s, genOrder(c, keep), op);
+    }
     Upd u;
     u.entry = static_cast<int>(c.weighted({3, 2, 2, 2, 2, 2}));
     u.withCons = c.flag();
@@ -647,6 +778,52 @@ LAW(L4_narrow_box, RC, 1500, 50000, 64, "at least two selected variables, one of
   bool fine = std::isnan(d1.v) || fabsl(static_cast<LD>(d1.v) - ref) <= t.trunc1 + 1024 * t.r1;
   if (g.scheme == 0) c.excludeIfKnown("C12-2pt-noprobe");
   CHECK(fine, "df/dx" << bad << " = " << vf::dec(d1.v) << " although no probe of x" << bad << " was possible (analytic " << vf::dec(static_cast<double>(ref)) << "): an arbitrary finite number instead of NaN");
+}
+
+// ------------------------------------------------------------------ L5 narrow boxes: every geometry, every scheme
+// At least one selected variable lives in a box narrower than the probe reach; requested values are the middle, the
+// bounds, points an ulp / a small fraction of the step away from either bound, or anywhere in the box.  Short histories
+// through every entry point, full and partial lists; oracle = checkAfter (T, D, B, N) after every update.
+LAW(L5_narrow_geometry, RC, 6000, 300000, 260, "a selected variable named in the update has no full-step probe on either side") {
+  Cfg g;
+  g.scheme = static_cast<int>(c.weighted({3, 4, 1}));
+  g.kind = static_cast<int>(c.below(g.scheme == 0 ? 2 : 3));
+  g.h = genH(c, g.setH);
+  int n = c.irange(1, 3), deg = c.irange(0, 4);
+  g.P = genPoly(c, n, deg, 5);
+  int first = static_cast<int>(c.below(static_cast<uint64_t>(n)));
+  for (int j = 0; j < n; ++j) g.box.push_back(j == first || c.oneIn(3) ? genNarrowBox(c, g.h) : genBox(c, g.h));
+  { vector<int> sub; for (int j = 0; j < n; ++j) if (j == first || !c.oneIn(4)) sub.push_back(j); g.sel = genOrder(c, sub); }
+  g.cross = g.scheme == 1 && c.oneIn(6);
+  vector<double> x0; for (int j = 0; j < n; ++j) x0.push_back(c.flag() ? genVal(c, g.box[j], g.h) : midOf(g.box[j]));
+  c.desc << g.show() << " start(";
+  for (int j = 0; j < n; ++j) c.desc << (j ? "," : "") << vf::dec(x0[j]);
+  c.desc << ")";
+  Sys s(g, x0);
+  bool nt = false;
+  int nops = c.irange(1, 3);
+  for (int op = 0; op < nops; ++op) {
+    Upd u;
+    u.entry = static_cast<int>(c.weighted({3, 2, 2, 2, 2, 2}));
+    u.withCons = c.flag();
+    vector<int> sub;
+    if (u.entry == 2) sub.push_back(c.flag() ? first : static_cast<int>(c.below(static_cast<uint64_t>(n))));
+    else for (int j = 0; j < n; ++j) if (u.entry == 1 || j == first || !c.oneIn(3)) sub.push_back(j);
+    u.order = genOrder(c, sub);
+    for (int j : u.order) u.val.push_back(genVal(c, g.box[j], g.h));
+    c.desc << "; " << ENTRY[u.entry] << (u.withCons ? "" : "[plain]") << "(";
+    for (size_t q = 0; q < u.order.size(); ++q) c.desc << (q ? "," : "") << "x" << u.order[q] << "=" << vf::dec(u.val[q]);
+    c.desc << ")";
+    for (size_t q = 0; q < u.order.size(); ++q) {
+      int j = u.order[q]; if (!s.selected(j)) continue;
+      LD dl, du; dist(g.box[j], u.val[q], dl, du); LD reach = (g.scheme == 2 ? 2 : 1) * (1 + std::abs(u.val[q])) * g.h;
+      if (dl < reach && du < reach) nt = true;
+    }
+    c.nt(nt);
+    ostringstream wh; wh << "after op " << op + 1 << " (" << ENTRY[u.entry] << ")";
+    if (!applyUpdate(c, s, u, wh.str())) break;
+  }
+  c.nt(nt);
 }
 
 static struct Init { Init() { vf::G().resetHook = [] { vf::quietBpp(); vf::installAudit(); }; } } init_;
